@@ -15,10 +15,10 @@ Proof. exact clone_not_original. Qed.
 
 (* verify() and no_verify_in_drop() on a clone panic *)
 Theorem C09_verify_on_clone_panics : forall w x i it,
-  live_inst w i = Some it -> i_original it = false ->
+  live_inst w i = Some it -> i_original it = false -> x_unwinding x = false ->
   snd (step w {| ev_ctx := x; ev_base := BVerify i |}) = ("P:" ++ msg_verify_clone)%string /\
   snd (step w {| ev_ctx := x; ev_base := BNvid i |}) = ("P:" ++ msg_nvid_clone)%string.
-Proof. intros w x i it Hl Ho. unfold step. cbn [ev_base ev_ctx]. rewrite Hl, Ho. split; reflexivity. Qed.
+Proof. intros w x i it Hl Ho Hu. unfold step. cbn [ev_base ev_ctx]. rewrite Hl, Ho, Hu. split; reflexivity. Qed.
 
 (* the original's verification: skipped while unwinding (std) / after an own
    mock panic (no_std); then panics if a clone is alive; then (std) if on a foreign
